@@ -104,7 +104,7 @@ pub fn attempted_add(op: &Op, pre: &Pre) -> Option<(bool, T, u32)> {
             _ => None,
         },
         Op::SInsert { t, c } | Op::SReplace { t, c } => Some((true, *t, *c)),
-        Op::Overflow { t, via } => match via {
+        Op::Overflow { t, via, .. } => match via {
             Via::Collect | Via::FromArr | Via::SetCollect | Via::SetFromArr | Via::SetExtend => None,
             v => {
                 let set = is_set_via(*v);
@@ -144,7 +144,9 @@ impl<K: SimK, V: SimV, const N: usize, const M: usize> World<K, V, N, M> {
             | Op::Disjoint { t, .. }
             | Op::WithCap { t, .. }
             | Op::Fill { t, set: false }
-            | Op::DropNew { t, set: false } => {
+            | Op::DisjointUnchecked { t, .. }
+            | Op::DefaultIter { t, .. }
+            | Op::DropNew { t, set: false, .. } => {
                 let p = pre.map(*t);
                 on_map!(self, *t, |m, cx| map_op(m, cx, op, *t, p, &mut out))
             }
@@ -161,7 +163,8 @@ impl<K: SimK, V: SimV, const N: usize, const M: usize> World<K, V, N, M> {
             | Op::SIter { t, .. }
             | Op::SClone { t, .. }
             | Op::Fill { t, set: true }
-            | Op::DropNew { t, set: true } => {
+            | Op::SExtendRef { t, .. }
+            | Op::DropNew { t, set: true, .. } => {
                 let p = pre.set(*t);
                 on_set!(self, *t, |s, cx| set_op(s, cx, op, *t, p, &mut out))
             }
@@ -169,6 +172,7 @@ impl<K: SimK, V: SimV, const N: usize, const M: usize> World<K, V, N, M> {
             Op::SEq { a, b } => on_two_sets!(self, *a, *b, |x, y, cx| set_eq(x, y, cx)),
             Op::SRel { a, b, kind } => on_two_sets!(self, *a, *b, |x, y, cx| set_rel(x, y, cx, *kind)),
             Op::SSub { a, b } => on_two_sets!(self, *a, *b, |x, y, cx| set_sub(x, y, cx)),
+            Op::SDiffRef { a, b, how } => on_two_sets!(self, *a, *b, |x, y, cx| crate::ops_set::set_diff_ref(x, y, cx, *how)),
             Op::SAlg { a, b, kind, how } => on_two_sets!(self, *a, *b, |x, y, cx| set_alg(x, y, cx, *kind, *how)),
             Op::FromIter { t, items, src } => on_map!(self, *t, |m, cx| map_from_iter(m, cx, items, src, "Map::from_iter")),
             Op::FromArr { t, items } => on_map!(self, *t, |m, cx| map_from_arr(m, cx, items)),
@@ -190,6 +194,7 @@ impl<K: SimK, V: SimV, const N: usize, const M: usize> World<K, V, N, M> {
                 let p = pre.map(*t);
                 on_map!(self, *t, |m, cx| fmt_iter(m, cx, *which, *take, *alt, *spec, *sink, p))
             }
+            Op::BigDisjoint { fill, sel } => crate::ops_big::big_disjoint(&mut self.cx, *fill, *sel),
             Op::Serde { t, set, cfg } => crate::ops_serde::serde_op(self, *t, *set, cfg, pre),
             Op::Relocate { t, set } => {
                 self.cx.probe("relocated");
@@ -200,13 +205,16 @@ impl<K: SimK, V: SimV, const N: usize, const M: usize> World<K, V, N, M> {
                     (true, T::B) => self.sb.relocate(Set::new()),
                 }
             }
-            Op::Overflow { t, via } => self.overflow(*t, *via, pre, &mut out),
+            Op::Overflow { t, via, hint } => self.overflow(*t, *via, *hint, pre, &mut out),
         }
         out
     }
 
-    fn overflow(&mut self, t: T, via: Via, pre: &Pre, out: &mut OpOut) {
-        let truthful = SrcCfg { hint: 0, gap_at: None };
+    fn overflow(&mut self, t: T, via: Via, hint: u8, pre: &Pre, out: &mut OpOut) {
+        let truthful = SrcCfg { hint, gap_at: None };
+        if hint > 4 {
+            self.cx.probe("overflow_with_incorrect_size_hint");
+        }
         if is_set_via(via) {
             let p = pre.set(t);
             let c = absent_class(p);
@@ -265,7 +273,12 @@ impl<K: SimK, V: SimV, const N: usize, const M: usize> World<K, V, N, M> {
             }
         }
         // bulk overflow entry points
-        if let Op::Overflow { t, via } = op {
+        if let Op::Overflow { t, via, hint } = op {
+            // a source with an incorrect size_hint is a buggy (though safe) caller: only the standing
+            // memory-safety checks (canaries, len <= capacity, ledger) are judged then
+            if *hint > 4 && matches!(via, Via::Collect | Via::SetCollect | Via::SetExtend) {
+                return;
+            }
             let cap = |set: bool| if set { if *t == T::A { N } else { M } } else if *t == T::A { N } else { M };
             match via {
                 Via::Collect | Via::SetCollect => {
